@@ -22,7 +22,7 @@ NOT_APPLICABLE = {
 }
 
 # properties whose check is registered in MANIFEST.json (validated on the unchanged tree)
-READY = ['C01','C02','C04','C06','C07','C08','C09','C10','C14','C15','C16','C17','C18','C19']
+READY = ['C01','C02','C03','C04','C06','C07','C08','C09','C10','C11','C14','C15','C16','C17','C18','C19']
 
 CHECKS = {
     'C01': dict(
